@@ -407,3 +407,32 @@ func VerifC18MapIndexReps() {
 	nd.Assert(o1 == o2, "ordered-map-looked-up-like-a-map")
 	nd.Reach("C18.mapindexreps")
 }
+
+// VerifC18DropTruth: a Drop reached by lookup (nested in a map or an array) is as true, as false
+// and as nil as the value it stands for: in conditions, under and/or, in == nil and in default.
+func VerifC18DropTruth() {
+	var v any
+	switch nd.Choice(7) {
+	case 0:
+		v = false
+	case 1:
+		v = nil
+	case 2:
+		v = true
+	case 3:
+		v = 0
+	case 4:
+		v = ""
+	case 5:
+		v = []any{}
+	case 6:
+		v = nd.Bool()
+	}
+	t := "{% if m.d and true %}A{% else %}B{% endif %}{% if m.d or false %}A{% else %}B{% endif %}{% if l[0] %}A{% else %}B{% endif %}{% unless l.first and m.d %}U{% endunless %}{% if m.d == nil %}N{% endif %}{% if m.d == false %}F{% endif %}{{ m.d | default: 'dflt' }}"
+	o1, e1 := vRender(t, Bindings{"m": map[string]any{"d": v}, "l": []any{v}})
+	o2, e2 := vRender(t, Bindings{"m": map[string]any{"d": c18Drop{v}}, "l": []any{c18Drop{v}}})
+	o3, e3 := vRender(t, Bindings{"m": c18Drop{map[string]any{"d": c18Drop{c18Drop{v}}}}, "l": c18Drop{[]any{c18Drop{v}}}})
+	nd.Assert(e1 == nil && e2 == nil && e3 == nil, "drop-truth-no-error")
+	nd.Assert(o1 == o2 && o1 == o3, "drop-as-true-as-its-value")
+	nd.Reach("C18.droptruth")
+}
